@@ -100,6 +100,22 @@ Definition get_address_ranges (fm : fmap) : list (option arange) :=
   let t2 := if fm_h fm >? fm_h0 fm
             then Some (get_address_range fm st (fm_h0 fm) 0 0 (fm_h fm - 1) (Z.min (fm_w fm) (fm_w0 fm) - 1) (fm_d fm - 1))
             else None in
+  let t3 := if (fm_w fm >? fm_w0 fm) && (fm_h fm >? fm_h1 fm)
+            then Some (get_address_range fm st (fm_h1 fm) (fm_w0 fm) 0 (fm_h fm - 1) (fm_w fm - 1) (fm_d fm - 1))
+            else None in
+  [Some t0; t1; t2; t3].
+
+(* the function as it was before repo commit de3dc4c (tile 3 reported only when tiles 1 AND 2 are
+   in use); kept only for the refutation witness footprint_overapprox_old_code_refuted *)
+Definition get_address_ranges_old (fm : fmap) : list (option arange) :=
+  let st := get_strides fm in
+  let t0 := get_address_range fm st 0 0 0 (Z.min (fm_h fm) (fm_h0 fm) - 1) (Z.min (fm_w fm) (fm_w0 fm) - 1) (fm_d fm - 1) in
+  let t1 := if fm_w fm >? fm_w0 fm
+            then Some (get_address_range fm st 0 (fm_w0 fm) 0 (Z.min (fm_h fm) (fm_h1 fm) - 1) (fm_w fm - 1) (fm_d fm - 1))
+            else None in
+  let t2 := if fm_h fm >? fm_h0 fm
+            then Some (get_address_range fm st (fm_h0 fm) 0 0 (fm_h fm - 1) (Z.min (fm_w fm) (fm_w0 fm) - 1) (fm_d fm - 1))
+            else None in
   let t3 := match t1, t2 with
             | Some _, Some _ => Some (get_address_range fm st (fm_h1 fm) (fm_w0 fm) 0 (fm_h fm - 1) (fm_w fm - 1) (fm_d fm - 1))
             | _, _ => None
